@@ -101,5 +101,23 @@ TEXT = {
         "Data-race freedom is carried as: every variable shared between goroutines is only read, or is an atomic / channel / WaitGroup (regenerated capture and access lists), plus a race-detector run; real-time bounds and scheduler fairness are outside the model.",
    note="Trusted: Lean kernel; the transition system as a faithful abstraction of worker.go (tied by regenerated skeletons and validated by replaying every recorded execution, every event required to be an enabled model step); Go memory model, scheduler fairness; "
         "the race detector and goroutine accounting in the supporting run; extractor+harness+hooks (pkg/pow/hook_verif.go, build tag verif)."),
+ "C01": dict(ref="DESIGN.md §5 C01",
+   technique="Lean 4 proof of the byte-level logic of Verify over an abstract curve library whose group laws are an explicit hypothesis (satisfiable: witness over ZMod L); source-snapshot tie; differential correspondence against an independent Lean edwards25519/SHA-512 cofactored oracle",
+   text="partial (curve library assumed): Lean theorems for every 32-byte key, message and signature: Verify = true iff len 64, S < L, key and R decode, [8][S]B = [8]R + [8][k]A with k = SHA-512(R||A||M) mod L (equivalently unreduced, given cofactor 8); false otherwise; panic iff key length != 32; "
+        "the top-bits pre-check is implied by S < L; S + jL (j >= 1) is rejected; everything the cofactorless encoded comparison (crypto/ed25519) accepts is accepted; the equation and the verdicts are invariant under adding 8-torsion to A and to R. "
+        "Hypothesis Lawful: the library's add/neg/smul/eq/decode/encode are those of an abelian group with [L]B = 0.",
+   note="Trusted: Lean kernel; Mathlib algebra; filippo.io/edwards25519 and crypto/sha512 are NOT verified (hypothesis Lawful/Cofactor, shown satisfiable); which byte strings decode is observed by correspondence against a from-scratch Lean curve, not proved; extractor+harness."),
+ "C07": dict(ref="DESIGN.md §5 C07",
+   technique="Lean 4 proof that the model's RFC 8032 key generation, signing and ZIP-215 verification fit together for every seed and message (abstract curve library, explicit hypothesis); byte identity with crypto/ed25519 by differential correspondence (three-way: package, standard library, independent Lean implementation)",
+   text="partial (byte identity with crypto/ed25519 is correspondence, not theorem): Lean theorems for every 32-byte seed and every message: the key is seed || enc([s]B) with s the clamped SHA-512 half (never 0 mod L), Sign yields 64 bytes R || S with S = k*s + r mod L, Verify accepts it for its own key and message; "
+        "Sign is a function (deterministic); the Signer wrapper returns the same signature for Hash(0) and an error for any other option; the only failures are the length panics. "
+        "Correspondence: pkg/ed25519 = crypto/ed25519 = Lean RFC 8032 byte for byte over both SHA-512 padding regimes.",
+   note="Trusted: Lean kernel; curve library and SHA-512 (hypothesis Lawful); crypto/ed25519 as the reference named by the property; the Lean edwards25519/SHA-512 oracle; extractor+harness."),
+ "C18": dict(ref="DESIGN.md §5 C18",
+   technique="Lean 4 proof of ECVRF completeness, codec canonicity, key validation and the algebraic half of uniqueness over an abstract curve library (hypotheses explicit and shown jointly satisfiable); RFC 9381 conformance by differential correspondence against an independent Lean ECVRF",
+   text="partial (library assumed; uniqueness is a random-oracle statement): Lean theorems for every seed and alpha on which try-and-increment succeeds: Prove yields a proof, Verify accepts its 80-byte encoding for the matching key with Proof.Hash, ProofToHash gives the same hash; for ANY accepted proof the three hash routes agree; "
+        "acceptance is characterised (canonical non-small-order key, canonical 80-byte (Gamma,c,s), recomputed challenge = c); non-canonical, undecodable and small-order keys are rejected; decoding succeeds only for strings that re-encode to themselves (s < L, 16-byte c) and every such proof round-trips; isCanonicalY iff y < p; "
+        "an accepted proof whose Gamma differs from [x]H by a small-order point yields the honest hash.",
+   note="Trusted: Lean kernel; Mathlib algebra; curve library/SHA-512 (hypotheses Lawful, Cofactor, OrderExact, EncodeCanonical, EncodeDecode, Nat.Prime L); conformance with RFC 9381 rests on the independent Lean implementation agreeing on every op incl. the RFC vectors; full uniqueness (Chaum-Pedersen soundness in the ROM) is not a theorem."),
 }
 PENDING = {}
